@@ -458,8 +458,15 @@ func (e *Extractor) invokeXObject(name string) error {
 		}
 	}
 
-	// Register fonts from XObject's resources
+	// Register fonts from XObject's resources. Their names are scoped to the
+	// form: a form font that reuses a resource name of the page must not
+	// replace the page's font once the form has ended.
+	oldFonts := e.fonts
 	if xobjResources != nil {
+		e.fonts = make(map[string]*font.Font, len(oldFonts))
+		for name, f := range oldFonts {
+			e.fonts[name] = f
+		}
 		if err := e.RegisterFontsFromResources(xobjResources, e.resolver); err != nil {
 			// Non-fatal - continue with existing fonts
 		}
@@ -491,6 +498,7 @@ func (e *Extractor) invokeXObject(name string) error {
 	if err != nil {
 		// Restore state and return error
 		e.resources = oldResources
+		e.fonts = oldFonts
 		e.xobjectDepth--
 		e.gs.Restore()
 		return fmt.Errorf("failed to parse XObject content: %w", err)
@@ -505,6 +513,7 @@ func (e *Extractor) invokeXObject(name string) error {
 
 	// Restore state
 	e.resources = oldResources
+	e.fonts = oldFonts
 	e.xobjectDepth--
 	e.gs.Restore()
 
